@@ -50,6 +50,7 @@ let fn1x = function
 let predx = function
   | A "PTrue" -> PTrue | A "PFalse" -> PFalse
   | L [A "PTokIn"; t] -> PTokIn (toks t) | L [A "PTokNotIn"; t] -> PTokNotIn (toks t)
+  | L [A "PToksAre"; t] -> PToksAre (toks t)
   | _ -> failwith "pred"
 let mwx = function
   | A "MWSpan" -> MWSpan | A "MWState" -> MWState | A "MWCtx" -> MWCtx | A "MWAll" -> MWAll | A "MWSlice" -> MWSlice
@@ -122,6 +123,14 @@ let rec gx (x : sx) : g =
   | L [A "Var"; k] -> Var (natx k)
   | L [A "Boxed"; a] -> gx a
   | L [A "Pratt"; _; a; L ops] -> Pratt (gx a, List.map opx ops)
+  (* text parsers: the derived grammars of coq/Model/Text.v, classes given as token sets *)
+  | L [A "TextDigits"; d] -> ToSlice (RepUnit (text_digits (PTokIn (toks d))))
+  | L [A "TextInt"; d; nz; z] -> text_int (PTokIn (toks d)) (PTokIn (toks nz)) (n_of_int (num z))
+  | L [A "TextIdent"; st; ct] -> text_ident (PTokIn (toks st)) (PTokIn (toks ct))
+  | L [A "TextKeyword"; st; ct; k] -> text_keyword (PTokIn (toks st)) (PTokIn (toks ct)) (toks k)
+  | L [A "TextWhitespace"; w] -> ToSlice (RepUnit (text_whitespace (PTokIn (toks w))))
+  | L [A "TextNewline"; nl; cr; lf] -> ToSlice (text_newline (PTokIn (toks nl)) (n_of_int (num cr)) (n_of_int (num lf)))
+  | L [A "TextPadded"; w; a] -> text_padded (PTokIn (toks w)) (gx a)
   | _ -> failwith "grammar"
 and opx (x : sx) : pop =
   match x with
